@@ -345,6 +345,10 @@ def run(ctx):
     binary = build_binary(ctx, race=True)
     ms = 2500 if ctx.quick else 15000
     families = sorted(wanted) + ["Reads"]
+    if "FilterRefresh" in (fams[0].get("persist") or []):
+        # Concurrency.tla PersistPairs: config.write (reader of every cell) against the
+        # refresh worker's write-back of the filter set and its enabled flag.
+        families.append("Persist")
     par = 4 if ctx.quick else 6
     with ThreadPoolExecutor(max_workers=par) as ex:
         results = list(ex.map(lambda f: run_family(ctx, binary, f, ms, ctx.seed), families))
